@@ -52,7 +52,8 @@ theorem badLexeme_progress (s : LexSt) (c : Char) (tl : List Char) (hr : s.rest 
     by simp [advance, LexSt.addDiag], ?_⟩
   · have : Clean (s.rest.take 1) := by rw [hr]; intro x hx; simp at hx; subst hx; exact hc
     rw [advPos_clean _ _ this]; simp [hr, advance, LexSt.addDiag]
-  · intro d hd; simp at hd; subst hd; simp [HasHl]
+  · intro d hd; simp at hd; subst hd
+    exact DiagAt.here (hl := ⟨s.line, s.col, some 1, none⟩) (tl := []) rfl (by rw [hr]; simp) rfl
 
 /-- A character no sub-lexer takes is not whitespace: `parseWhitespace` takes newline/tab. -/
 theorem parseWhitespace_some_of_ws (s : LexSt) (c : Char) (tl : List Char) (hr : s.rest = c :: tl)
